@@ -53,3 +53,97 @@ type Big struct {
 }
 
 func Undeclared(b *Big) int { return b.n + b.m }
+
+// second round
+
+var tbl [4]int
+
+func AssignAbs(b *Big) int {
+	b.n = 1
+	return b.n
+}
+
+func RangeAssign(a []int) int {
+	for i := range a {
+		a[i] = 0
+	}
+	return len(a)
+}
+
+func UndeclaredGlobal(i int) int { return tbl[i] }
+
+func BreakInSwitch(a []int) int {
+	n := 0
+	for _, v := range a {
+		switch {
+		case v > 0:
+			if v > 10 {
+				break
+			}
+			n++
+		}
+	}
+	return n
+}
+
+func CondPanic(k int, ok bool) bool { return ok && mayPanic(k) > 0 }
+
+func LeLoopBreak(b byte) int {
+	n := 0
+	for i := byte(0); i <= b; i++ {
+		if i == 7 {
+			break
+		}
+		n++
+	}
+	return n
+}
+
+func Labelled(a []int) int {
+	n := 0
+outer:
+	for _, v := range a {
+		if v == 0 {
+			break outer
+		}
+		n++
+	}
+	return n
+}
+
+func SliceHigh(a []int, n int) []int { return a[:n] }
+
+func WhileNoFuel(s uint32) int {
+	n := 0
+	for it := s; it != 0; it = it >> 4 {
+		if it&1 == 1 {
+			return n
+		}
+		n++
+	}
+	return n
+}
+
+func ElemGlobal(i int) int {
+	tbl[0] = i
+	return i
+}
+
+// slices have value semantics in the translation: anything that could make two names share a mutated backing array is refused
+
+func AliasAppend(a []int) int {
+	b := append(a, 1)
+	c := append(a, 2)
+	return b[len(a)] + c[len(a)]
+}
+
+func AliasCopy(a []int) int {
+	b := a
+	b[0] = 1
+	return a[0]
+}
+
+func AliasParams(a, b []int) int {
+	a[0] = 1
+	return b[0]
+}
